@@ -30,13 +30,32 @@ it parks on `ctx.Done()`).  `ack_after_registration` (Props.lean) is the stateme
 registers BEFORE it acknowledges: from the instant the client can hold the acknowledgement, every
 `notifySessions` snapshot and every `ResourceUpdated` lookup finds the session.
 
+`notifySessions(k)` is a SNAPSHOT under the lock (`cbrun`: the send list is fixed, the timer slot is
+cleared) followed by a fan-out loop that writes to one session after the other WITHOUT the lock; a
+write may block (back-pressure of one transport, a sending middleware).  The writes are the labels
+`deliver k i`: `KState.inflight` holds the sends of every snapshot of kind `k` whose write is still
+to come (of any number of concurrent fan-outs), and any other label — a change, a timer, another
+callback, a close — may be scheduled between two writes.  A write to a session that has been closed
+meanwhile fails (nothing is sent).
+
+A `subscriptions/listen` request may name any number of list-changed kinds AND any number of distinct
+URIs (a raw peer; the SDK client sends kinds only, or exactly one URI).  Its registration is, in the
+Go code, one critical section for the list-changed tables followed by one `subscribe` call per URI
+(each first asks `ServerOptions.SubscribeHandler`); they are ONE label here (`listen`: the handler
+accepts every URI; `listenRefused … n`: it refuses the URI at index `n` — the handler has then
+registered the kinds and the URIs before it, returns the error, and its deferred functions run: the
+label is literally `listenEnd` after the partial `listen`).
+
+`updatedNamed u v` is a `ResourceUpdated` fan-out to the subscribers of `u` whose notification NAMES
+`v` (a server that reports a sub-resource of what the client subscribed to — legal per the protocol
+text quoted at `ResourceUpdatedNotificationParams.URI`; `updated u` is the case `v = u`).
+
 Environment assumptions, enforced as guards of the labels (a label whose guard fails is a no-op):
 `subscriptions/listen` is opened only on a 2026-07-28 session, the request ids of the open listens of
-one session are distinct (JSON-RPC), one listen asks either for list-changed kinds only (the
-connect-time listen) or for exactly one URI (`ClientSession.Subscribe`) — so its registration is ONE
-critical section of the Go code —, and `resources/subscribe` / `resources/unsubscribe` are used only
-by legacy sessions (`ClientSession.Subscribe` does exactly this).  ANY number of open listens of one
-session may ask for the same kind or the same URI, and they end in any order.
+one session are distinct (JSON-RPC), the URIs of one listen are distinct, and `resources/subscribe` /
+`resources/unsubscribe` are used only by legacy sessions (`ClientSession.Subscribe` does exactly
+this).  ANY number of open listens of one session may ask for the same kind or the same URI, and
+they end in any order.
 
 `listens` is `Server.listens` (open streams, NEWEST FIRST here, oldest first in Go) and at the same
 time the record of the live handlers the theorems speak about: it is written only by the labels that
@@ -64,12 +83,19 @@ deriving DecidableEq, Repr
 
 def delay : Nat := notificationDelayMs
 
+structure Send where
+  sid : Nat
+  stamp : Option Nat
+deriving DecidableEq, Repr
+
 structure KState where
   tracked : Option (Option Nat) := none
   orphans : List Nat := []
   pending : Nat := 0
   /-- `toolChangeSubscriptions` etc.: session id ↦ listen request id -/
   subs : List (Nat × Nat) := []
+  /-- sends of snapshots already taken whose write is still to come (fan-out loops in progress) -/
+  inflight : List Send := []
 
 /-- `listenStream`: a live `subscriptionsListen` handler (from its registration section on) and what
 it was granted (`allowed`) -/
@@ -106,16 +132,15 @@ def init (cap : Kind → Cap) : Server :=
   { cap := cap, now := 0, ver := fun _ => 0, cnt := fun _ => 0, sessions := [], ks := fun _ => {},
     rsubs := [], owed := [], listens := [], acked := [], rlive := [] }
 
-structure Send where
-  sid : Nat
-  stamp : Option Nat
-deriving DecidableEq, Repr
-
 inductive Out where
   /-- one run of `notifySessions(n)`: the snapshot's send list -/
   | changed (k : Kind) (to : List Send)
   | updated (uri : Nat) (to : List Send)
   | ack (sid id : Nat) (kinds : List Kind) (uris : List Nat)
+  /-- one write of a fan-out loop of `notifySessions(k)` -/
+  | sent (k : Kind) (x : Send)
+  /-- a `ResourceUpdated` fan-out to the subscribers of `uri` whose notification names `named` -/
+  | updatedNamed (uri named : Nat) (to : List Send)
 deriving Repr, DecidableEq
 
 inductive Label where
@@ -124,15 +149,18 @@ inductive Label where
   | fireTracked (k : Kind)
   | fireOrphan (k : Kind) (i : Nat)
   | cbrun (k : Kind)
+  | deliver (k : Kind) (i : Nat)
   | bind (sid : Nat)
   | hello (sid : Nat) (modern : Bool)
   | listen (sid id : Nat) (kinds : List Kind) (uris : List Nat)
+  | listenRefused (sid id : Nat) (kinds : List Kind) (uris : List Nat) (n : Nat)
   | listenAck (sid id : Nat)
   | listenEnd (sid id : Nat)
   | subscribe (sid id uri : Nat)
   | unsubscribe (sid uri : Nat)
   | close (sid : Nat)
   | updated (uri : Nat)
+  | updatedNamed (uri named : Nat)
 deriving Repr
 
 def setK (s : Server) (k : Kind) (f : KState → KState) : Server :=
@@ -217,9 +245,19 @@ def cbrun (s : Server) (k : Kind) : Server × List Out :=
   if (s.ks k).pending = 0 then (s, []) else
   ({ setK s k (fun st => { st with
         pending := st.pending - 1, tracked := none,
-        orphans := (match st.tracked with | some (some d) => d :: st.orphans | _ => st.orphans) }) with
+        orphans := (match st.tracked with | some (some d) => d :: st.orphans | _ => st.orphans),
+        inflight := st.inflight ++ sendList s k }) with
      owed := s.owed.filter (fun p => p.2 != k) },
    [.changed k (sendList s k)])
+
+/-- One iteration of the fan-out loop: the `i`-th outstanding send of kind `k` is written (nothing is
+sent if its session has been closed since the snapshot). -/
+def deliver (s : Server) (k : Kind) (i : Nat) : Server × List Out :=
+  match (s.ks k).inflight[i]? with
+  | none => (s, [])
+  | some x =>
+    (setK s k (fun st => { st with inflight := st.inflight.eraseIdx i }),
+     if x.sid ∈ s.sessions.map Prod.fst then [.sent k x] else [])
 
 def fireTracked (s : Server) (k : Kind) : Server :=
   match (s.ks k).tracked with
@@ -245,10 +283,6 @@ def hello (s : Server) (sid : Nat) (modern : Bool) : Server :=
 def listenOk (s : Server) (sid id : Nat) : Bool :=
   s.listens.all (fun l => !(l.sid == sid && l.id == id))
 
-/-- What one listen of the SDK client asks for: list-changed kinds only, or exactly one URI. -/
-def listenShape (kinds : List Kind) (uris : List Nat) : Bool :=
-  uris.isEmpty || (kinds.isEmpty && uris.length == 1)
-
 /-- The stream was granted a kind whose subscription table is `t`. -/
 def grantsK (t : Kind) (l : Listen) : Bool := l.kinds.any (fun k => listenTable k == some t)
 
@@ -260,12 +294,12 @@ def grantsU (u : Nat) (l : Listen) : Bool := l.uris.contains u
 def heir (ls : List Listen) (sid : Nat) (granted : Listen → Bool) : Option Nat :=
   (ls.find? (fun l => l.sid == sid && granted l)).map (·.id)
 
-/-- The registration section of `subscriptionsListen` (`allowedSubscriptions`, then the tables under
-`Server.mu`, resp. the `subscribe` call of the one URI).  Nothing is written to the client here.
+/-- The registration sections of `subscriptionsListen` (`allowedSubscriptions`, then the tables under
+`Server.mu`, then the `subscribe` call of every granted URI, none of which the SubscribeHandler
+refuses).  Nothing is written to the client here.
 An entry of the same session is overwritten: the tables hold the id of the newest stream. -/
 def listen (s : Server) (sid id : Nat) (kinds : List Kind) (uris : List Nat) : Server :=
-  if (sid, Gen.modern) ∈ s.sessions ∧ listenOk s sid id = true ∧ uris.Nodup ∧
-      listenShape kinds uris = true then
+  if (sid, Gen.modern) ∈ s.sessions ∧ listenOk s sid id = true ∧ uris.Nodup then
     let ak := kinds.filter (gateListen s)
     let au := if resSub s then uris else []
     { s with
@@ -307,6 +341,14 @@ def listenEnd (s : Server) (sid id : Nat) : Server :=
       listens := rest,
       acked := s.acked.filter (fun p => !(p.1 == sid && p.2 == id)) }
 
+/-- `subscriptionsListen` when `SubscribeHandler` refuses the granted URI at index `n`: the handler has
+registered the kinds and the URIs before it (`listen … (uris.take n)`), returns the error without
+acknowledging anything, and its deferred functions run (`listenEnd`). -/
+def listenRefused (s : Server) (sid id : Nat) (kinds : List Kind) (uris : List Nat) (n : Nat) : Server :=
+  if (sid, Gen.modern) ∈ s.sessions ∧ listenOk s sid id = true ∧ uris.Nodup ∧ n < uris.length ∧ resSub s = true then
+    listenEnd (listen s sid id kinds (uris.take n)) sid id
+  else s
+
 def subscribe (s : Server) (sid id uri : Nat) : Server :=
   if (sid, Gen.legacy) ∈ s.sessions then
     { s with rsubs := s.rsubs.filter (fun r => !(r.1 == uri && r.2.1 == sid)) ++ [(uri, sid, id)],
@@ -342,15 +384,18 @@ def step (s : Server) : Label → Server × List Out
   | .fireTracked k => (fireTracked s k, [])
   | .fireOrphan k i => (fireOrphan s k i, [])
   | .cbrun k => cbrun s k
+  | .deliver k i => deliver s k i
   | .bind sid => (bind s sid, [])
   | .hello sid m => (hello s sid m, [])
   | .listen sid id kinds uris => (listen s sid id kinds uris, [])
+  | .listenRefused sid id kinds uris n => (listenRefused s sid id kinds uris n, [])
   | .listenAck sid id => listenAck s sid id
   | .listenEnd sid id => (listenEnd s sid id, [])
   | .subscribe sid id u => (subscribe s sid id u, [])
   | .unsubscribe sid u => (unsubscribe s sid u, [])
   | .close sid => (close s sid, [])
   | .updated u => (s, [.updated u (updList s u)])
+  | .updatedNamed u v => (s, [.updatedNamed u v (updList s u)])
 
 /-- Run a schedule; outputs oldest first. -/
 def run (s : Server) : List Label → Server × List Out
